@@ -21,7 +21,7 @@ def one(sid):
 
     d = tempfile.mkdtemp(prefix="seedscratch-")
     try:
-        shutil.copytree("/repo/afkak", os.path.join(d, "afkak"), ignore=shutil.ignore_patterns("test", "__pycache__"))
+        shutil.copytree(os.environ.get("VERIF_SRC", "/repo") + "/afkak", os.path.join(d, "afkak"), ignore=shutil.ignore_patterns("test", "__pycache__"))
         p = subprocess.run(["patch", "-s", "-p1", "-d", d, "-i", os.path.join(SEEDED, sid, "patch.diff")], capture_output=True, text=True)
         if p.returncode != 0:
             return sid, None, "patch does not apply: " + (p.stdout + p.stderr).strip()[:120]
